@@ -17,6 +17,7 @@ import (
 	"fmt"
 	"sort"
 	"strings"
+	"sync"
 	"time"
 
 	"github.com/postalsys/muti-metroo/internal/config"
@@ -31,6 +32,7 @@ type nsFrame struct {
 }
 
 type nsNet struct {
+	mu     sync.Mutex // guards q, done, sent (sinks are written by agent goroutines too)
 	n      int
 	agents []*Agent
 	ids    []identity.AgentID
@@ -58,8 +60,10 @@ func (s *nsSink) Write(p []byte) (int, error) {
 		}
 	}
 	k := [2]int{s.from, s.to}
+	s.net.mu.Lock()
 	s.net.q[k] = append(s.net.q[k], b)
 	s.net.sent = append(s.net.sent, nsFrame{s.from, s.to, b})
+	s.net.mu.Unlock()
 	return len(p), nil
 }
 
@@ -109,6 +113,12 @@ func nsNew(n int, mod func(i int, cfg *config.Config)) (*nsNet, error) {
 			return nil, fmt.Errorf("agent %d: id mismatch %s", i, a.id)
 		}
 		a.peerMgr.SetFrameCallback(a.processFrame)
+		if a.exitHandler != nil {
+			a.exitHandler.Start() // what agent.Start does; no goroutines
+		}
+		if a.forwardHandler != nil {
+			a.forwardHandler.Start()
+		}
 		net.agents = append(net.agents, a)
 		net.ids = append(net.ids, id)
 	}
@@ -187,8 +197,10 @@ func (n *nsNet) disconnect(a, b int) {
 	}
 	delete(n.conn, [2]int{a, b})
 	delete(n.conn, [2]int{b, a})
+	n.mu.Lock()
 	delete(n.q, [2]int{a, b})
 	delete(n.q, [2]int{b, a})
+	n.mu.Unlock()
 	n.agents[a].peerMgr.VerifDisconnect(ca, fmt.Errorf("link down"))
 	n.agents[b].peerMgr.VerifDisconnect(cb, fmt.Errorf("link down"))
 }
@@ -196,11 +208,13 @@ func (n *nsNet) disconnect(a, b int) {
 // pending returns the directed links with queued frames, sorted.
 func (n *nsNet) pending() [][2]int {
 	var out [][2]int
+	n.mu.Lock()
 	for k, v := range n.q {
 		if len(v) > 0 {
 			out = append(out, k)
 		}
 	}
+	n.mu.Unlock()
 	sort.Slice(out, func(i, j int) bool {
 		if out[i][0] != out[j][0] {
 			return out[i][0] < out[j][0]
@@ -215,12 +229,15 @@ func (n *nsNet) quiescent() bool { return len(n.pending()) == 0 }
 // deliver pops the head frame of link from->to and hands it to the receiver's real processFrame.
 func (n *nsNet) deliver(from, to int) (*protocol.Frame, error) {
 	k := [2]int{from, to}
+	n.mu.Lock()
 	if len(n.q[k]) == 0 {
+		n.mu.Unlock()
 		return nil, fmt.Errorf("nothing queued on %d->%d", from, to)
 	}
 	b := n.q[k][0]
 	n.q[k] = n.q[k][1:]
 	n.done[k] = append(n.done[k], b)
+	n.mu.Unlock()
 	return n.inject(from, to, b)
 }
 
@@ -239,7 +256,9 @@ func (n *nsNet) inject(from, to int, b []byte) (*protocol.Frame, error) {
 
 // redeliver injects again the i-th frame already delivered on from->to (duplication).
 func (n *nsNet) redeliver(from, to, i int) error {
+	n.mu.Lock()
 	d := n.done[[2]int{from, to}]
+	n.mu.Unlock()
 	if i >= len(d) {
 		return fmt.Errorf("no delivered frame %d on %d->%d", i, from, to)
 	}
@@ -474,4 +493,28 @@ func (n *nsNet) dist() [][]int {
 		}
 	}
 	return d
+}
+
+// takeAll removes and returns everything queued on link k.
+func (n *nsNet) takeAll(k [2]int) [][]byte {
+	n.mu.Lock()
+	defer n.mu.Unlock()
+	b := n.q[k]
+	n.q[k] = nil
+	n.done[k] = append(n.done[k], b...)
+	return b
+}
+
+// sentSnapshot returns a copy of the log of every frame written so far.
+func (n *nsNet) sentSnapshot() []nsFrame {
+	n.mu.Lock()
+	defer n.mu.Unlock()
+	return append([]nsFrame(nil), n.sent...)
+}
+
+// logSent appends a frame written by a scripted endpoint to the log.
+func (n *nsNet) logSent(from, to int, b []byte) {
+	n.mu.Lock()
+	n.sent = append(n.sent, nsFrame{from, to, b})
+	n.mu.Unlock()
 }
